@@ -140,7 +140,16 @@ func run(c *Ctx, e *c06Case, im *image.NRGBA) {
 	// correspondence + specification: the model reconstructs the bytes
 	if !e.NoModel {
 		c.Case("recon "+tag+" "+hex.EncodeToString(bs), fmt.Sprintf("ok %d %d %s.%s.%s", w, h, digest(ry), digest(ru), digest(rv)))
+		// the model emitter reproduces the encoder's bytes from the syntax recovered from them
+		// (every stream in the quick tier, every third one in the thorough tier)
+		if c.Thorough() && c.D.Evaluations%3 != 0 {
+			goto goSide
+		}
+		c.Case("reemit "+tag+" "+hex.EncodeToString(bs), "same")
+		// the encoder reconstruction model on the recovered choices = the encoder's planes
+		c.Case("encrecon "+tag+" "+hex.EncodeToString(bs), fmt.Sprintf("ok %d %d %s.%s.%s", w, h, digest(ry), digest(ru), digest(rv)))
 	}
+goSide:
 	if w != e.W || h != e.H {
 		c.Violate("dims", fmt.Sprintf("reconstruction %dx%d, source %dx%d", w, h, e.W, e.H), replay)
 	}
